@@ -970,3 +970,268 @@ Example C02_error_list_eviction_crosses_objects :
       EvBuilder 5 WStore; EvOpen (5, 1%nat) true]).
 Proof. exact error_list_eviction_crosses_objects. Qed.
 (* ===== end block: C02MultiObj ===== *)
+
+From FluteV Require Import Proofs.C02Cache.
+(* ===== block: C02Cache ===== *)
+(* ---------------- the FEC OTI is carried ONLY by the FDT: the cache of the object receiver (Proofs/C02Cache.v) ----------------
+   Packets of an object that arrive before its FDT entry and carry no EXT_FTI cannot be decoded: ObjectReceiver::push
+   caches them (cacheable: no EXT_FTI, no EXT_CENC, not an FDT packet) and attach_fdt replays them IN ARRIVAL ORDER
+   (push_from_cache pops the front of a VecDeque; fixes D43 - the replay used to be last-cached-first, which broke the clean
+   in-order transfer that precedes a late FDT: its B-flagged last packet was replayed first).
+   The cache is bounded: cache() refuses a packet once the counter - the sum of
+   pkt.data.len() of the packets cached so far, duplicates and repair symbols included - has reached max_size_allocated
+   (= cf_max_cache at the receiver level); the refused packet puts the object in error.  cache_fits max 0 pre says that
+   no packet of pre is refused (unfolded in C02_cache_statements)  [C02_cache_bound_refuted].
+   The proof rests on one scheme-independent fact: the cache fields are a frame of the block plane (push_to_block reads
+   neither the cache nor its counter; complete() / error() clear them), so attaching the entry to an object that cached
+   [pre] IS attaching it to a fresh object and then pushing pre - C02_cached_nocode_is_fifo_replay states it for
+   the whole reception: same final object, same log.  Hence every object-level theorem above transfers with pkts :=
+   pre ++ post, the close-object flag premise included: a flag on a cached packet is harmless once the packets up to it
+   cover the object  [C02_cached_close_flag_in_order_delivered], and interrupts the object during the replay otherwise
+   [C02_cached_close_flag_early_refuted].
+   receive_cached = or_new, pushes of pre, or_attach, pushes of post (from ctx0).  toi <> 0: TOI 0 is the FDT. *)
+Theorem C02_cached_nocode_is_fifo_replay : forall E oti content toi max fid files inst md5 pre post,
+  let L := lenN_ content in
+  nocode_ok oti L -> toi <> 0 -> fdt_entry_for files inst toi oti L md5 -> writer_accepts E toi ->
+  Forall cacheable pre -> cache_fits max 0 pre = true ->
+  Forall (fun p => genuine_pkt oti content p = true) pre ->
+  receive_cached E fid files inst toi max pre post = receive E fid files inst toi max (pre ++ post).
+Proof. exact nocode_cached_is_fifo_replay. Qed.
+Print Assumptions C02_cached_nocode_is_fifo_replay.
+
+(* G1: pre (cached) then the FDT entry then post; pre ++ post recoverable.  post = [] is the case where the cached packets
+   alone suffice: the object completes during the replay, inside attach_fdt. *)
+Theorem C02_cached_nocode_recoverable_delivers : forall E oti content toi max fid files inst md5 pre post,
+  let L := lenN_ content in
+  nocode_ok oti L -> toi <> 0 -> fdt_entry_for files inst toi oti L md5 ->
+  writer_accepts E toi -> writes_succeed E toi -> md5_good E content md5 ->
+  L <= max -> nb_blocks_of oti L <= 4097 ->
+  Forall cacheable pre -> cache_fits max 0 pre = true ->
+  Forall (fun p => genuine_pkt oti content p = true) (pre ++ post) ->
+  close_flag_ok oti L (pre ++ post) ->
+  recoverable oti L (pre ++ post) = true ->
+  let (o, c) := receive_cached E fid files inst toi max pre post in
+  r_state o = Completed
+  /\ ShapeDone content (toi, 0%nat) toi c
+  /\ forall m, complete_exact content (m, calls_of (toi, 0%nat) (c_log c)) = true
+                /\ P_C02_object (recoverable oti L (pre ++ post)) content [(m, calls_of (toi, 0%nat) (c_log c))] = true.
+Proof. exact nocode_cached_recoverable_delivers. Qed.
+Print Assumptions C02_cached_nocode_recoverable_delivers.
+
+(* the empty object (transfer length 0; any FEC scheme, any content encoding): cache_replay_blocked lets the replay run
+   although the object has no block (D40); the first packet whose payload id parses - replayed from the cache, or
+   received after the entry - completes it: builder, open, complete, no write.  With no packet at all the object stays
+   Receiving with its writer open (C02_cached_examples). *)
+Theorem C02_cached_empty_object_delivers : forall E fid files inst f toi max oti pre post,
+  find (fun f => ff_toi f =? toi) files = Some f ->
+  match ff_oti f with Some x => Some x | None => inst end = Some oti ->
+  ff_tlen f = 0 -> toi <> 0 -> writer_accepts E toi ->
+  Forall cacheable pre -> cache_fits max 0 pre = true ->
+  Forall (fun p => a_pid_with (ro_fec oti) p <> None) (pre ++ post) -> pre ++ post <> [] ->
+  let (o, c) := receive_cached E fid files inst toi max pre post in
+  r_state o = Completed /\ c_log c = [EvBuilder toi WStore; EvOpen (toi, 0%nat) true; EvComplete (toi, 0%nat)].
+Proof.
+  intros E fid files inst f toi max oti pre post H1 H2 H3 H4 [A1 A2].
+  exact (empty_cached_delivers E fid files inst f toi max oti H1 H2 H3 H4 A1 A2 pre post).
+Qed.
+Print Assumptions C02_cached_empty_object_delivers.
+
+(* the vocabulary, unfolded once; and the frame fact: push_to_block on an object whose cache fields are replaced (wc)
+   does what it does on the object itself - same context, the result Ok object keeps the replaced cache while it is still
+   Receiving and is the same (cache cleared by complete / error) otherwise, an Err object keeps it *)
+Theorem C02_cache_statements :
+  (forall p, cacheable p <-> a_oti p = None /\ a_cenc p = None /\ (a_toi p <> 0 \/ a_fdt_id p = None))
+  /\ (forall max l, cache_fits max 0 l = true <-> forall l1 p l2, l = l1 ++ p :: l2 -> 0 + sumlen l1 < max)
+  /\ (forall l, sumlen l = fold_right (fun p a => a_datalen p + a) 0 l)
+  /\ (forall E fid files inst toi max pre post,
+        receive_cached E fid files inst toi max pre post
+        = (let (o1, c1) := C02Full.run E pre (or_new toi max, ctx0) in
+           let '(_, o2, c2) := or_attach E fid files inst o1 c1 in C02Full.run E post (o2, c2)))
+  /\ (forall E ch sz p o c, r_state o = Receiving ->
+        push_to_block E p (wc ch sz o) c
+        = (match fst (push_to_block E p o c) with
+           | ROk o1 => ROk (match r_state o1 with Receiving => wc ch sz o1 | _ => o1 end)
+           | RErr o1 => RErr (wc ch sz o1)
+           end, snd (push_to_block E p o c))).
+Proof.
+  split; [intros; reflexivity|]. split; [intros; apply cache_fits_spec|]. split; [induction l as [|x l IH]; [reflexivity|cbn; rewrite IH; reflexivity]|].
+  split; [intros; reflexivity|]. intros E ch sz p o c H. destruct (ptb_frame E ch sz p o c H) as [Eq _]. rewrite Eq.
+  destruct (push_to_block E p o c) as [[o1|o1] c1]; cbn; [destruct (r_state o1)|]; reflexivity.
+Qed.
+Print Assumptions C02_cache_statements.
+
+(* G2, the receiver level: the packets pre arrive BEFORE the FDT instance without EXT_FTI and without EXT_CENC: push_obj
+   creates the object at the first of them and they are cached (neither push_obj nor the caching path looks at the
+   close-object flag); the FDT packet pf (one-packet instance, as in C02_session_fdt_first_delivers) attaches the entry, the
+   cache is replayed in arrival order; post follows.  genuine / close_flag_ok / recoverable are those of pre ++ post: NO
+   restriction on the close-object flag of the cached packets beyond close_flag_ok of the whole sequence (unlike
+   C02_session_fdt_late_delivers, whose early packets must not carry it).  "EXT_FTI on the early packets" is replaced by "no
+   EXT_FTI, and they fit the cache".  pre = [] is C02_session_fdt_first_delivers. *)
+Theorem C02_session_fdt_cached_delivers : forall E parse_fdt cfg oti content toi md5 now pf id foti d inst pre post,
+  let L := lenN_ content in
+  nocode_ok oti L -> toi <> 0 ->
+  fdt_pkt_ok pf id foti d -> parse_fdt d = Some inst -> fdt_live cfg inst pf now ->
+  fdt_entry_for (fi_files inst) (fi_oti inst) toi oti L md5 ->
+  writer_accepts E toi -> writes_succeed E toi -> md5_good E content md5 ->
+  L <= cf_max_cache cfg -> nb_blocks_of oti L <= 4097 ->
+  Forall (fun p => a_toi p = toi) (pre ++ post) ->
+  Forall (fun p => genuine_pkt oti content p = true) (pre ++ post) ->
+  Forall (fun p => a_oti p = None /\ a_cenc p = None) pre ->
+  cache_fits (cf_max_cache cfg) 0 pre = true ->
+  close_flag_ok oti L (pre ++ post) ->
+  recoverable oti L (pre ++ post) = true ->
+  let '(_, r, c) := recv_run E parse_fdt cfg recv0 (map (fun p => RvPush p now) (pre ++ pf :: post)) ctx0 in
+  session_delivered cfg inst content toi r c.
+Proof. exact session_fdt_cached_delivers. Qed.
+Print Assumptions C02_session_fdt_cached_delivers.
+
+(* G4: the same for the oracle schemes, object level (Reed-Solomon) and receiver level (Reed-Solomon, RaptorQ / Raptor),
+   through the interface of C02_session_via_interface extended by three facts of the attached object (empty cache, pushes
+   go straight to the blocks, nothing to flush at block 0).  The cache counts repair symbols too. *)
+Theorem C02_rs_cached_recoverable_delivers : forall E oti content rep toi max fid files inst md5 pre post,
+  let L := lenN_ content in
+  rs_scheme_ok oti L -> rs_blocks_ok oti L -> toi <> 0 -> fdt_entry_for files inst toi oti L md5 ->
+  writer_accepts E toi -> writes_succeed E toi -> md5_good E content md5 ->
+  rs_oracle_mds E oti content rep toi ->
+  rs_mem_need oti L <= max -> nb_blocks_of oti L <= 4097 ->
+  Forall cacheable pre -> cache_fits max 0 pre = true ->
+  Forall (fun p => rs_genuine_pkt oti content rep p = true) (pre ++ post) ->
+  rs_close_flag_ok oti L (pre ++ post) ->
+  rs_recoverable oti L (pre ++ post) = true ->
+  let (o, c) := receive_cached E fid files inst toi max pre post in
+  r_state o = Completed
+  /\ ShapeDone content (toi, 0%nat) toi c
+  /\ forall m, complete_exact content (m, calls_of (toi, 0%nat) (c_log c)) = true
+                /\ P_C02_object (rs_recoverable oti L (pre ++ post)) content [(m, calls_of (toi, 0%nat) (c_log c))] = true.
+Proof. exact rs_cached_recoverable_delivers. Qed.
+Print Assumptions C02_rs_cached_recoverable_delivers.
+
+Theorem C02_rs_session_fdt_cached_delivers : forall E parse_fdt cfg oti content rep toi md5 now pf id foti d inst pre post,
+  let L := lenN_ content in
+  rs_scheme_ok oti L -> rs_blocks_ok oti L -> toi <> 0 ->
+  fdt_pkt_ok pf id foti d -> parse_fdt d = Some inst -> fdt_live cfg inst pf now ->
+  fdt_entry_for (fi_files inst) (fi_oti inst) toi oti L md5 ->
+  writer_accepts E toi -> writes_succeed E toi -> md5_good E content md5 ->
+  rs_oracle_mds E oti content rep toi ->
+  rs_mem_need oti L <= cf_max_cache cfg -> nb_blocks_of oti L <= 4097 ->
+  Forall (fun p => a_toi p = toi) (pre ++ post) ->
+  Forall (fun p => rs_genuine_pkt oti content rep p = true) (pre ++ post) ->
+  Forall (fun p => a_oti p = None /\ a_cenc p = None) pre ->
+  cache_fits (cf_max_cache cfg) 0 pre = true ->
+  rs_close_flag_ok oti L (pre ++ post) ->
+  rs_recoverable oti L (pre ++ post) = true ->
+  let '(_, r, c) := recv_run E parse_fdt cfg recv0 (map (fun p => RvPush p now) (pre ++ pf :: post)) ctx0 in
+  session_delivered cfg inst content toi r c.
+Proof. exact rs_session_fdt_cached_delivers. Qed.
+Print Assumptions C02_rs_session_fdt_cached_delivers.
+
+Theorem C02_fq_session_fdt_cached_delivers : forall E parse_fdt cfg oti content enc toi md5 now pf id foti d inst pre post,
+  let L := lenN_ content in
+  fq_scheme_ok oti L -> fq_blocks_ok oti L -> toi <> 0 ->
+  fdt_pkt_ok pf id foti d -> parse_fdt d = Some inst -> fdt_live cfg inst pf now ->
+  fdt_entry_for (fi_files inst) (fi_oti inst) toi oti L md5 ->
+  writer_accepts E toi -> writes_succeed E toi -> md5_good E content md5 ->
+  fq_oracle_sound E oti content enc toi -> fq_oracle_complete E oti content enc toi ->
+  L <= cf_max_cache cfg -> nb_blocks_of oti L <= 4097 ->
+  Forall (fun p => a_toi p = toi) (pre ++ post) ->
+  Forall (fun p => fq_genuine_pkt oti content enc p = true) (pre ++ post) ->
+  Forall (fun p => fq_sized_pkt oti p = true) (pre ++ post) ->
+  Forall (fun p => a_oti p = None /\ a_cenc p = None) pre ->
+  cache_fits (cf_max_cache cfg) 0 pre = true ->
+  fq_close_flag_ok oti L (pre ++ post) ->
+  fq_recoverable oti L (pre ++ post) = true ->
+  let '(_, r, c) := recv_run E parse_fdt cfg recv0 (map (fun p => RvPush p now) (pre ++ pf :: post)) ctx0 in
+  session_delivered cfg inst content toi r c.
+Proof. exact fq_session_fdt_cached_delivers. Qed.
+Print Assumptions C02_fq_session_fdt_cached_delivers.
+
+(* non-vacuity: the 5-byte, 2-block object (E = 2, B = 2), ex_pkts = (1,0) (0,1) (1,0) (0,0) (0,1) without EXT_FTI: three
+   packets cached before the FDT entry, two after; all five cached (completion inside attach_fdt); the reception equals
+   that of the same packets after the entry; the empty object; and the theorems apply (ex_cached_object_by_theorem,
+   ex_session_cached_by_theorem, rs_session_cached_by_theorem in Proofs/C02Cache.v) *)
+Example C02_cached_examples :
+  (summary 7 (receive_cached env_ok 1 ex_files None 7 1000 (firstn 3 ex_pkts) (skipn 3 ex_pkts))
+   = (Completed, [CallOpen true; CallWrite [1; 2; 3; 4] true; CallWrite [5] true; CallComplete])
+   /\ summary 7 (receive_cached env_ok 1 ex_files None 7 1000 ex_pkts [])
+      = (Completed, [CallOpen true; CallWrite [1; 2; 3; 4] true; CallWrite [5] true; CallComplete])
+   /\ receive_cached env_ok 1 ex_files None 7 1000 (firstn 3 ex_pkts) (skipn 3 ex_pkts)
+      = receive env_ok 1 ex_files None 7 1000 (firstn 3 ex_pkts ++ skipn 3 ex_pkts)
+   /\ cache_fits 1000 0 ex_pkts = true)
+  /\ (summary 7 (receive_cached env_ok 1 ex0_files None 7 1000 [src_pkt 7 0 0 false []] []) = (Completed, [CallOpen true; CallComplete])
+      /\ summary 7 (receive_cached env_ok 1 ex0_files None 7 1000 [] [src_pkt 7 0 0 true []]) = (Completed, [CallOpen true; CallComplete])
+      /\ summary 7 (receive_cached env_ok 1 ex0_files None 7 1000 [] []) = (Receiving, [CallOpen true]))
+  /\ (sess (tx_parse false None) (tx_cfg true false) (firstn 3 ex_pkts ++ tx_fdt None :: skipn 3 ex_pkts)
+      = ([POk; POk; POk; POk; POk; POk], [], [7], [], delivered_log)
+      /\ sess (tx_parse false None) (tx_cfg true false) (ex_pkts ++ [tx_fdt None])
+         = ([POk; POk; POk; POk; POk; POk], [], [7], [], delivered_log))
+  /\ (sess_env env_xor (txr_parse exr_oti 5) (tx_cfg true false) (firstn 3 exr_pkts ++ tx_fdt None :: skipn 3 exr_pkts)
+      = ([POk; POk; POk; POk; POk; POk], [], [7], [], delivered_log)
+      /\ sess_env env_xor (txr_parse exr_oti 5) (tx_cfg true false) (exr_pkts ++ [tx_fdt None])
+         = ([POk; POk; POk; POk; POk; POk], [], [7], [], delivered_log)).
+Proof. exact (conj ex_cached_object_computed (conj ex_cached_empty_object (conj ex_session_cached_computed rs_session_cached_computed))). Qed.
+
+Example C02_session_cached_by_theorem :
+  let '(_, r, c) := recv_run env_ok (tx_parse false None) (tx_cfg true false) recv0
+                             (map (fun p => RvPush p 100%Z) (firstn 3 ex_pkts ++ tx_fdt None :: skipn 3 ex_pkts)) ctx0 in
+  session_delivered (tx_cfg true false) (tx_inst false None) ex_content 7 r c.
+Proof. exact ex_session_cached_by_theorem. Qed.
+
+(* cache_fits is needed.  Every other premise holds - genuine, recoverable, no flag, L = 5 <= cf_max_cache = 5 - but the five
+   packets before the FDT instance carry 1 + 2 + 1 + 2 = 6 > 5 bytes when the fifth arrives (the duplicates count): the
+   object is abandoned and error-listed (C17: the cache is bounded), the instance finds nothing to attach, NOTHING is
+   delivered although every symbol and the FDT were received; with four packets before the FDT it is delivered.
+   Afterwards the packets of the TOI are ignored (3rd run) until a symbol (0,0) arrives, which takes the TOI off the error
+   list and starts a NEW reception from scratch: delivered if a whole cycle follows (4th run; 5th run: the new reception
+   starts before the FDT instance and is cached again).  At the object level the refused packet leaves the object
+   Errored, and attach_fdt, which does not look at the state, still opens a writer that gets nothing. *)
+Example C02_cache_bound_refuted :
+  (forallb (genuine_pkt ex_oti ex_content) ex_pkts = true /\ recoverable ex_oti 5 ex_pkts = true
+   /\ map a_datalen ex_pkts = [1; 2; 1; 2; 2] /\ cache_fits 5 0 ex_pkts = false /\ cache_fits 5 0 (firstn 4 ex_pkts) = true
+   /\ sess (tx_parse false None) (mk_rcfg 5 5 true false) (ex_pkts ++ [tx_fdt None]) = ([POk; POk; POk; POk; POk; POk], [], [], [7], [])
+   /\ sess (tx_parse false None) (mk_rcfg 5 5 true false) (firstn 4 ex_pkts ++ [tx_fdt None]) = ([POk; POk; POk; POk; POk], [], [7], [], delivered_log)
+   /\ sess (tx_parse false None) (mk_rcfg 5 5 true false)
+           (ex_pkts ++ [tx_fdt None; src_pkt 7 1 0 false [5]; src_pkt 7 0 1 false [3; 4]])
+      = ([POk; POk; POk; POk; POk; POk; POk; POk], [], [], [7], [])
+   /\ sess (tx_parse false None) (mk_rcfg 5 5 true false)
+           (ex_pkts ++ [tx_fdt None; src_pkt 7 1 0 false [5]; src_pkt 7 0 0 false [1; 2]; src_pkt 7 1 0 false [5]; src_pkt 7 0 1 false [3; 4]])
+      = ([POk; POk; POk; POk; POk; POk; POk; POk; POk; POk], [], [7], [], delivered_log)
+   /\ sess (tx_parse false None) (mk_rcfg 5 5 true false)
+           (ex_pkts ++ [src_pkt 7 0 0 false [1; 2]; src_pkt 7 1 0 false [5]; src_pkt 7 0 1 false [3; 4]; tx_fdt None])
+      = ([POk; POk; POk; POk; POk; POk; POk; POk; POk], [], [7], [], delivered_log))
+  /\ summary 7 (receive_cached env_ok 1 ex_files None 7 5 ex_pkts []) = (Errored, [CallOpen true]).
+Proof. exact (conj cache_bound_refuted cache_bound_refuted_object). Qed.
+
+(* the close-object flag among the cached packets.  The complete IN-ORDER transfer with the B flag on its last packet, no
+   EXT_FTI, entirely before the FDT instance (a clean channel, the FDT merely late) is delivered - the defect D43 (replay
+   last-cached-first: the flagged packet came first, nothing was delivered) is repaired; also when only the flagged packet
+   follows the FDT; and the theorem applies *)
+Example C02_cached_close_flag_in_order_delivered :
+  forallb (genuine_pkt ex_oti ex_content) ex_pkts_inorder = true /\ recoverable ex_oti 5 ex_pkts_inorder = true
+  /\ cache_fits 1000 0 ex_pkts_inorder = true /\ map a_close_obj ex_pkts_inorder = [false; false; true]
+  /\ sess (tx_parse false None) (tx_cfg true false) (ex_pkts_inorder ++ [tx_fdt None])
+     = ([POk; POk; POk; POk], [], [7], [], delivered_log)
+  /\ sess (tx_parse false None) (tx_cfg true false) (firstn 2 ex_pkts_inorder ++ tx_fdt None :: skipn 2 ex_pkts_inorder)
+     = ([POk; POk; POk; POk], [], [7], [], delivered_log).
+Proof. exact cached_close_flag_in_order_delivered. Qed.
+
+Example C02_cached_close_flag_in_order_by_theorem :
+  let '(_, r, c) := recv_run env_ok (tx_parse false None) (tx_cfg true false) recv0
+                             (map (fun p => RvPush p 100%Z) (ex_pkts_inorder ++ tx_fdt None :: [])) ctx0 in
+  session_delivered (tx_cfg true false) (tx_inst false None) ex_content 7 r c.
+Proof. exact cached_close_flag_in_order_by_theorem. Qed.
+
+(* close_flag_ok of pre ++ post is needed for the cached packets as for the others: a flag that arrives EARLY - on a cached
+   packet after which the object is not yet covered - interrupts the object during the replay, exactly as it does after the
+   FDT (3rd run): the flagged packet cached first, or the in-order transfer cached in reverse order: every symbol and the
+   FDT were received, the object is interrupted holding one symbol and error-listed, nothing is delivered *)
+Example C02_cached_close_flag_early_refuted :
+  forallb (genuine_pkt ex_oti ex_content) ex_pkts_flag_first = true /\ recoverable ex_oti 5 ex_pkts_flag_first = true
+  /\ cache_fits 1000 0 ex_pkts_flag_first = true /\ map a_close_obj ex_pkts_flag_first = [true; false; false]
+  /\ sess (tx_parse false None) (tx_cfg true false) (ex_pkts_flag_first ++ [tx_fdt None])
+     = ([POk; POk; POk; POk], [], [], [7], [EvBuilder 7 WStore; EvOpen (7, 0%nat) true; EvInterrupted (7, 0%nat)])
+  /\ sess (tx_parse false None) (tx_cfg true false) (List.rev ex_pkts_inorder ++ [tx_fdt None])
+     = ([POk; POk; POk; POk], [], [], [7], [EvBuilder 7 WStore; EvOpen (7, 0%nat) true; EvInterrupted (7, 0%nat)])
+  /\ sess (tx_parse false None) (tx_cfg true false) (tx_fdt None :: [src_pkt 7 1 0 true [5]])
+     = ([POk; POk], [], [], [7], [EvBuilder 7 WStore; EvOpen (7, 0%nat) true; EvInterrupted (7, 0%nat)]).
+Proof. exact cached_close_flag_early_refuted. Qed.
+(* ===== end block: C02Cache ===== *)
